@@ -28,23 +28,25 @@ Require Import Lia ZifyBool ZifyNat ZifyN.
 Open Scope N_scope.
 
 (* ---- itoa on canonical digit strings up to 40 digits (u128 / i128) ------------------------------------------------------------------ *)
-Lemma itoa_canon40 int : int_ok int = true -> nval int 0 < 10 ^ 40 -> itoa (nval int 0) = int.
+Lemma itoa_canon40 int : int_ok int = true -> nval int 0 < 10000000000000000000000000000000000000000 -> itoa (nval int 0) = int.
 Proof.
   intros Hint Hlt. destruct (int_ok_inv int Hint) as [->|(c & ds & -> & Hc & Hd)]; [reflexivity|].
   unfold itoa. rewrite (dec_aux_canon ds c 40 [] Hc Hd); [apply app_nil_r|].
   pose proof (nval_canon_ge c ds Hc) as Hge.
   destruct (Nat.lt_ge_cases (length ds) 40) as [Hl|Hge40]; [exact Hl|exfalso].
-  assert (Hp : 10 ^ 40 <= 10 ^ N.of_nat (length ds)) by (apply N.pow_le_mono_r; lia). lia.
+  assert (Hp : 10 ^ 40 <= 10 ^ N.of_nat (length ds)) by (apply N.pow_le_mono_r; lia).
+  assert (H40 : 10 ^ 40 = 10000000000000000000000000000000000000000) by reflexivity.
+  rewrite H40 in Hp. lia.
 Qed.
 
-Lemma itoa_z_lit n : num_ok n = true -> lit_is_int n = true -> (lit_abs n < 10 ^ 40)%Z ->
+Lemma itoa_z_lit n : num_ok n = true -> lit_is_int n = true -> (lit_abs n < 10000000000000000000000000000000000000000)%Z ->
   itoa_z (lit_int n) = if nneg n && (lit_abs n =? 0)%Z then [48] else render_num n.
 Proof.
   intros Hok Hi Hlt. destruct (num_ok_inv n Hok) as (Hint & _).
   pose proof Hi as Hi'. apply lit_is_int_iff in Hi' as [Hf Hx]. rewrite (render_int n Hf Hx).
   assert (Hab : lit_abs n = Z.of_N (nval (nint n) 0)) by (unfold lit_abs; change 0%Z with (Z.of_N 0); apply digits_val_nval).
   assert (Hc : itoa (Z.to_N (lit_abs n)) = nint n).
-  { rewrite Hab, N2Z.id. apply itoa_canon40; [exact Hint|]. rewrite Hab in Hlt. change (10 ^ 40)%Z with (Z.of_N (10 ^ 40)) in Hlt. lia. }
+  { rewrite Hab, N2Z.id. apply itoa_canon40; [exact Hint|]. rewrite Hab in Hlt. lia. }
   unfold itoa_z, lit_int, TypedInt.int_lit. destruct (nneg n); cbn [andb app].
   - destruct (lit_abs n =? 0)%Z eqn:Hz.
     + apply Z.eqb_eq in Hz. rewrite Hz. reflexivity.
